@@ -58,6 +58,10 @@ def job_continuity(nfr, T, Fc, asc, oi, select):
         tgt = cad
         if select is not None:
             tgt = cad[select[1]:select[2]] if select[0] == 'slice' else cad[list(select[1])]
+        # other cadences over the same frame objects come into being before the injection (another first frame, another
+        # order); they are not used, and must not matter
+        if nfr >= 2:
+            _decoys = [CAD.Cadence(frames[1:]), CAD.Cadence(frames[::-1]), cad[1:], cad[[nfr - 1]]]
         tgt.add_signal(**kw)
         return frames, before, [id(f) for f in tgt.frames]
     with cad_patches():
@@ -348,6 +352,8 @@ def replay_cadence(p):
         bad = [m for m, fr in enumerate(frames) if not np.array_equal(fr.ts, ts0[m])]
         return bool(bad), f"after {which} raised on frame {k}: time axes of frames {bad} differ from the originals (max shift {max([float(np.max(np.abs(frames[m].ts - ts0[m]))) for m in bad] or [0])})"
     tgt = cad if not sel else (cad[sel[1]:sel[2]] if sel[0] == 'slice' else cad[list(sel[1])])
+    if nfr >= 2:
+        _decoys = [stg.Cadence(frames[1:]), stg.Cadence(frames[::-1]), cad[1:], cad[[nfr - 1]]]
     kw = dict(integrate_path=o['ip'], integrate_t_profile=o['it'], integrate_f_profile=o['if_'], doppler_smearing=o['smear'], t_subsamples=2, f_subsamples=2, smearing_subsamples=2)
     tgt.add_signal(path, tprof, fprof, bp, **kw)
     members = [m for m, fr in enumerate(frames) if any(fr is g for g in tgt.frames)]
